@@ -99,9 +99,11 @@ pub fn make_case(seed: u64, idx: u64, tier: Tier, restarts: bool) -> (Case, Rng)
     let mut r = Rng::new(seed).derive(idx.wrapping_mul(7919) + 1);
     let mut fan = 0;
     let mut flip_family = false;
+    let mut fan_family = false;
     let prog = if idx % 5 == 4 {
         let which = r.below(7);
         flip_family = which == 6;
+        fan_family = which == 1;
         let scale = match which {
             // (1 = projection fan over one firewall, each projection with its own consumer: the
             // fan crosses the chunking of the backward projection, 4 x available_parallelism)
@@ -132,12 +134,58 @@ pub fn make_case(seed: u64, idx: u64, tier: Tier, restarts: bool) -> (Case, Rng)
         late_inputs: true,
     };
     let mut history = gen_history(&mut r, &prog, &hp);
+    if fan > 0 && fan_family && r.chance(3, 4) {
+        history = fresh_projection_history(&mut r, fan);
+    }
     if flip_family && r.chance(1, 2) {
         if let Some(h) = tfc_flip_history(&mut r, &prog) {
             history = h;
         }
     }
     (Case { prog: Arc::new(prog), history, fan }, r)
+}
+
+/// Directed history for the projection-fan family (`gen_family` 1): in every epoch the input of
+/// the firewall changes and, concurrently, consumers that were computed before (their request
+/// repairs the firewall, which then walks its callers - backward projection) and consumers that
+/// are asked for the *first time* (their projections are being computed and registered as callers
+/// of the firewall meanwhile) are requested. This is the schedule behind the engine panic
+/// repaired by the last `fix:` commit ("a query is discoverable before its input is stored");
+/// random histories reached it about once in 240 000 cases.
+pub fn fresh_projection_history(r: &mut Rng, scale: u32) -> Vec<Step> {
+    use crate::eng::{QMode, Write};
+    use crate::model::{nid, Kind};
+    let n = scale.max(2);
+    let sess = |ws: Vec<Write>| Step::Session { cells: vec![], writes: ws, commit: true };
+    let mut vals: Vec<i64> = (0..4).map(|_| r.range(-3, 6)).collect();
+    let mut h = vec![sess((0..4).map(|i| Write::Set(i, vals[i as usize])).collect())];
+    let first = (n / 4).max(1);
+    h.push(Step::Query { roots: (0..first).map(|i| nid(Kind::N, i)).collect(), mode: QMode::Seq });
+    let mut next = first;
+    // many epochs with few first-time consumers each: every epoch is one chance for a first
+    // completion to coincide with the firewall's walk over its callers
+    let per = 1 + r.below(3) as u32;
+    let epochs = ((n - first) / per).clamp(1, 48);
+    for _ in 0..epochs {
+        let j = r.usize_below(4);
+        vals[j] += 1 + r.range(0, 2);
+        h.push(sess(vec![Write::Set(j as u32, vals[j])]));
+        let mut roots = Vec::new();
+        let fresh: Vec<u32> = (next..(next + per).min(n)).collect();
+        next = (next + per).min(n);
+        // old and new consumers alternate, so that every task of `Par(k)` gets both
+        for (k, f) in fresh.iter().enumerate() {
+            roots.push(nid(Kind::N, (k as u32 * 7 + 1) % first.max(1)));
+            roots.push(nid(Kind::N, *f));
+        }
+        if roots.is_empty() {
+            roots.push(nid(Kind::N, 0));
+        }
+        let k = 2 + r.usize_below(3);
+        h.push(Step::Query { roots, mode: QMode::Par(k) });
+    }
+    h.push(Step::Query { roots: vec![nid(Kind::N, 1_000_000)], mode: QMode::Seq });
+    h
 }
 
 /// Directed history for the conditional-firewall chain family (`gen_family` 6): the leaf is
